@@ -800,15 +800,16 @@ func main() {
 		go func(c cfg) { defer wg.Done(); sequential(r, c, r.Pick(150, 1500), 25) }(c)
 	}
 	wg.Wait()
+	nearIDsAll(r) // nearid.go: ids derived from issued ids by small edits are still unknown ids
 	concurrent(r, r.Pick(500, 5000))
 	overlapLifecycle(r) // installs the process-wide yield controller: nothing else of this process opens streams meanwhile
 	statelessIndependence(r, r.Pick(500, 5000))
 	statelessState(r, r.Pick(600, 6000))
 	csprng(r, r.Pick(200, 2000))
 	uniqueness(r, r.Pick(4000, 100000))
-	r.Finish("12 configurations {stateful, stateless, sessions disabled} x GET-SSE on/off x POST-SSE on/off: seeded random histories (<= 25 steps) over {initialize, request, notification, response-post, GET, stream-close, DELETE} x id classes {none, live, deleted, never-issued, foreign-made}, each step compared with the reference state machine (status, session header) and Server.GetActiveSessions() with the model's live set; concurrent histories (3-5 workers, <= 45 ops) of init/use/DELETE/list checked for linearizability with porcupine; overlapping operations of ONE session (overlap.go, stateful, GET-SSE on, POST-SSE on/off, next to a bystander session with its own stream and a deleted session): 2-3 GETs bearing the session id parked together at the yield points get.H / get.T / get.E and released in enumerated orders (k=2: both, k=3: rotating permutations; one at a time or in a burst; with / without an earlier stream), the DELETE of the session placed before each release, after the releases and at the end, a second initialize, requests, notifications, stream-closes, given-up GETs and GET / DELETE / requests bearing deleted and never-issued ids in between, plus seeded walks and free-running storms (GETs, DELETE and requests of the session fired together with seeded delays at the points), plus high-volume free-running rounds aimed at the windows inside the session-ending operations (spin.go: per round a fresh session, 4-8 peers re-opening its listening stream in a tight loop and 0-2 peers sending requests / notifications bearing it until their first refusal, while after a seeded number of re-opens the session is ended by one DELETE, two concurrent DELETEs or a DELETE concurrent with a second initialize; batches of 200 rounds per server, GOMAXPROCS default/8/4/2, POST-SSE on/off; exactly one DELETE 200, the other 404; afterwards every stream answered 200 has ended, no listening stream beyond the bystander's is registered, the live set is the model's and seeded later exchanges bearing the id get 404); every exchange judged by its logical-clock position relative to the DELETE (answered before it started: served with the same id; started after it was answered: 404; overlapping: either), every stream of the session the peer still holds after the DELETE was answered 200 must end (all of them; reported only after the server demonstrably answered other exchanges meanwhile), the deleted id is then refused by request / initialize / notification / GET / DELETE, and GetActiveSessions equals the model after every step; stateless answers replayed after seeded prefixes; stateless answers of handlers that keep state: HTTP context function, middleware, tool / prompt / resource handlers, the three list filters and a notification handler read the session of GetSessionFromContext and ClientSessionFromContext (id, times, data), the context values and the server handle, report what they found in the answer and then write the request nonce and visit counters; sequential histories (one / several clients, one server / four stateless Server instances of the process, session-disabled servers, JSON and POST-SSE answers, non-probe writers in between), groups of 2-4 requests parked on a gate after writing while complete requests run, and free-running groups of 3-8; every probe answer, normalised (own nonce, own server name, never-seen session id, times classified against the request window), must equal the answer of the same request as first request of a fresh server in a fresh process (24 reference children), and no session id may be seen by two requests when fresh processes hand out different ids; ids: uniqueness, visible ASCII, >= 128 bits, and traced to getrandom(2) buffers of the server process with strace. Distinct = (configuration, op, id class, status) seen conforming, plus concurrent history shapes.",
+	r.Finish("12 configurations {stateful, stateless, sessions disabled} x GET-SSE on/off x POST-SSE on/off: seeded random histories (<= 25 steps) over {initialize, request, notification, response-post, GET, stream-close, DELETE} x id classes {none, live, deleted, never-issued, foreign-made}, each step compared with the reference state machine (status, session header) and Server.GetActiveSessions() with the model's live set; ids DERIVED from issued ids (nearid.go; stateful x GET-SSE on/off x POST-SSE on/off; per round a live session with an open listening stream, a live one without and a deleted one): a seeded family of ~110 small edits of the issued id in 9 families (case flips of one/some/all letters, ASCII white space around/inside the value and obs-fold, control bytes, unicode spaces and invisible characters around it, truncation/extension/substitution/swap/doubling/mixing with another live id, look-alike characters, list/parameter/quoting forms, percent/base64/uuid/hex re-encodings, several Mcp-Session-Id header lines), each written byte by byte onto a raw TCP connection as request, notification, response-post, initialize, GET and DELETE; a wrapper around the handler records which header values net/http handed over for that very exchange, and only exchanges in which no value that arrived equals an issued id are judged (refused by net/http, arrived equal to an issued id or arrived empty: counted as skipped): 404 (405 for GET with GET-SSE off), no session header other than the id borne, GetActiveSessions unchanged after every exchange, afterwards both live sessions answer under their own ids, the deleted id is still refused and a server notification still arrives on the open listening stream; concurrent histories (3-5 workers, <= 45 ops) of init/use/DELETE/list checked for linearizability with porcupine; overlapping operations of ONE session (overlap.go, stateful, GET-SSE on, POST-SSE on/off, next to a bystander session with its own stream and a deleted session): 2-3 GETs bearing the session id parked together at the yield points get.H / get.T / get.E and released in enumerated orders (k=2: both, k=3: rotating permutations; one at a time or in a burst; with / without an earlier stream), the DELETE of the session placed before each release, after the releases and at the end, a second initialize, requests, notifications, stream-closes, given-up GETs and GET / DELETE / requests bearing deleted and never-issued ids in between, plus seeded walks and free-running storms (GETs, DELETE and requests of the session fired together with seeded delays at the points), plus high-volume free-running rounds aimed at the windows inside the session-ending operations (spin.go: per round a fresh session, 4-8 peers re-opening its listening stream in a tight loop and 0-2 peers sending requests / notifications bearing it until their first refusal, while after a seeded number of re-opens the session is ended by one DELETE, two concurrent DELETEs or a DELETE concurrent with a second initialize; batches of 200 rounds per server, GOMAXPROCS default/8/4/2, POST-SSE on/off; exactly one DELETE 200, the other 404; afterwards every stream answered 200 has ended, no listening stream beyond the bystander's is registered, the live set is the model's and seeded later exchanges bearing the id get 404); every exchange judged by its logical-clock position relative to the DELETE (answered before it started: served with the same id; started after it was answered: 404; overlapping: either), every stream of the session the peer still holds after the DELETE was answered 200 must end (all of them; reported only after the server demonstrably answered other exchanges meanwhile), the deleted id is then refused by request / initialize / notification / GET / DELETE, and GetActiveSessions equals the model after every step; stateless answers replayed after seeded prefixes; stateless answers of handlers that keep state: HTTP context function, middleware, tool / prompt / resource handlers, the three list filters and a notification handler read the session of GetSessionFromContext and ClientSessionFromContext (id, times, data), the context values and the server handle, report what they found in the answer and then write the request nonce and visit counters; sequential histories (one / several clients, one server / four stateless Server instances of the process, session-disabled servers, JSON and POST-SSE answers, non-probe writers in between), groups of 2-4 requests parked on a gate after writing while complete requests run, and free-running groups of 3-8; every probe answer, normalised (own nonce, own server name, never-seen session id, times classified against the request window), must equal the answer of the same request as first request of a fresh server in a fresh process (24 reference children), and no session id may be seen by two requests when fresh processes hand out different ids; ids: uniqueness, visible ASCII, >= 128 bits, and traced to getrandom(2) buffers of the server process with strace. Distinct = (configuration, op, id class, status) seen conforming, plus concurrent history shapes.",
 		[]string{"CSPRNG clause: ids are assumed to be a reversible text encoding (hex/base64/uuid) of kernel CSPRNG bytes; an id derived by hashing would be reported",
-			"the hourly expiry sweep is not driven", "stateless-state: the session-disabled configuration is judged like the stateless one (handlers get no session there; the statement names only stateless mode)", "stateless-state: session times without a monotonic reading are not ordered against the request window (counted, not judged)", "notification histories use a method without server-side handler (notifications/verif)",
+			"the hourly expiry sweep is not driven", "derived ids: a request with several Mcp-Session-Id lines of which one is an issued id, or whose value net/http itself reduces to an issued id (optional white space, obs-fold before the value), bears that id and is not judged as unknown; requests net/http refuses before the handler (control bytes) are only checked for leaving the live set unchanged", "stateless-state: the session-disabled configuration is judged like the stateless one (handlers get no session there; the statement names only stateless mode)", "stateless-state: session times without a monotonic reading are not ordered against the request window (counted, not judged)", "notification histories use a method without server-side handler (notifications/verif)",
 			"overlap: which of several concurrent GETs of one session keeps the stream is not judged here (C11); a stream left open after DELETE is reported after a 10 s + 2 s watchdog only if a request of the bystander (200) and a request bearing the deleted id (404) were answered meanwhile, otherwise the schedule is inconclusive (the probe is not a DELETE: it must not be able to tidy up what the judged DELETE left behind)",
 			"overlap spin: the windows inside DELETE / a second DELETE / a second initialize are sampled by volume (free-running peers, no yield point inside those operations), not enumerated; the number of listening streams the server has registered is read through the verif hook VerifListeningStreams and compared with the bystander's only after every stream of the session has ended at the peer"})
 }
